@@ -329,6 +329,50 @@ def shrink(hist_text, workdir, pred, budget_s=120):
 
 # ----------------------------------------------------------------------------- known findings
 
+DIRECT_EXTRA = {
+    "C07": {"inv", "readpaths"}, "C18": {"marks"}, "C04": {"reopen-diff", "fatal"}, "C15": {"drop-outside", "drop-added"},
+    "C19": {"fifo-deeper-level", "fifo-expired-kept", "fifo-not-oldest", "fifo-within-limits"},
+    "C12": {"block-bytes", "block-decode", "block-decode-back", "impl-iter", "impl-iter-rev", "point-read", "bloom-false-negative", "bloom-contains", "readpaths"},
+    "C11": {"config-diff"}, "C08": {"resolve", "dangling-pointer", "config-diff"}, "C09": {"gc-stats", "gc-ghost", "stale-bytes", "dead-file-kept", "gc-reopen", "blob-count", "dangling-pointer"},
+    "C14": {"ingest-missing"}, "C17": {"filter-unknown-item"},
+}
+
+
+def is_direct(prop, f):
+    """a failure that is itself a concrete input on which the property fails (as opposed to a
+    rejected certificate / model disagreement)"""
+    return f["kind"].startswith("oracle-") or f["kind"] in ("panic", "err", "fatal") or f["kind"] in DIRECT_EXTRA.get(prop, set())
+
+
+def probe_extension(hist_text):
+    """search for a concrete failing read: exhaustive point reads (every key that occurs, every
+    snapshot seqno) and full scans from both ends appended to the history"""
+    lines = [l for l in hist_text.split("\n") if l.strip() and not l.startswith("#")]
+    keys, nwrites = [], 0
+    for l in lines[1:]:
+        t = l.split()
+        if t[0] in ("put", "del", "wdel", "get", "getat", "getmax") and t[1] not in keys:
+            keys.append(t[1])
+        if t[0] == "ingest":
+            for it in t[1:]:
+                k = it.split(":")[1]
+                if k not in keys:
+                    keys.append(k)
+        if t[0] in ("put", "del", "wdel", "ingest", "flush", "flushactive", "major", "leveled", "clear", "droprange", "movedown", "pulldown", "fifo"):
+            nwrites += 1
+    smax = nwrites + 3
+    ext = []
+    for k in keys:
+        ext.append(f"getmax {k}")
+        for s in range(0, smax + 1):
+            ext.append(f"getat {k} {s}")
+    pulls = "F" * (len(keys) + 2)
+    for s in range(1, smax + 1, max(1, smax // 6)):
+        ext.append(f"rangeat u u {pulls} {s}")
+        ext.append(f"rangeat u u {pulls.replace('F', 'B')} {s}")
+    return "\n".join(lines + ext) + "\n"
+
+
 def load_findings():
     p = os.path.join(ROOT, "known_findings.json")
     if not os.path.exists(p):
@@ -359,8 +403,8 @@ TREE_NONTRIVIAL = lambda st: st.get("flush_steps", 0) >= 1 and st.get("merge_ste
 COMMON_KINDS = {"panic", "fatal", "err", "runner-crash", "parse", "truncated", "nolatest"}
 
 PROPS = {
-    "C01": dict(engine="tree", profiles=[("tree", 5, False), ("moves", 2, False), ("tree", 1, True)], n_ops=120,
-                quick=160, thorough=4000,
+    "C01": dict(engine="tree", profiles=[("tree", 4, False), ("lvl", 4, False), ("moves", 1, False), ("tree", 1, True)], n_ops=120,
+                quick=500, thorough=6000,
                 relevant=lambda f: f["snap"] == 0 and f["kind"] in ({"oracle-get", "oracle-contains", "agree", "inv", "nosv"} | COMMON_KINDS),
                 nontrivial=TREE_NONTRIVIAL),
     "C02": dict(engine="tree", profiles=[("tree", 4, False), ("drop", 1, False), ("ingest", 1, False)], n_ops=140,
@@ -371,8 +415,8 @@ PROPS = {
                 quick=160, thorough=4000,
                 relevant=lambda f: f["kind"] in ({"oracle-range", "oracle-prefix", "oracle-len", "oracle-first", "oracle-last", "oracle-isempty", "inv"} | COMMON_KINDS),
                 nontrivial=lambda st: TREE_NONTRIVIAL(st) and st.get("scans_nonempty", 0) >= 1),
-    "C07": dict(engine="tree", profiles=[("tree", 3, False), ("moves", 1, False), ("ingest", 1, False), ("drop", 1, False), ("tree", 1, True)], n_ops=120,
-                quick=160, thorough=4000,
+    "C07": dict(engine="tree", profiles=[("tree", 3, False), ("lvl", 3, False), ("moves", 1, False), ("ingest", 1, False), ("drop", 1, False), ("tree", 1, True)], n_ops=120,
+                quick=400, thorough=6000,
                 relevant=lambda f: f["kind"] in ({"inv", "readpaths"} | COMMON_KINDS),
                 nontrivial=TREE_NONTRIVIAL),
     "C04": dict(engine="tree", profiles=[("tree", 3, False), ("ingest", 1, False), ("drop", 1, False), ("tree", 1, True)], n_ops=120,
@@ -589,7 +633,7 @@ def finish(prop, tier, seed, spec, all_results, gen_errs, coq, workdir, t0):
             hid = "tbench-" + f0["tbench_case"]
             rp = os.path.join(EVID, "replays", f"{prop}-{hid}.txt")
             open(rp, "w").write("# replay: harness/target/debug/lsmv tbench %s 1 /tmp/case.txt && ocaml/tbrunner /tmp/case.txt\n# failure: %s\n" % (f0["tbench_case"], f0["line"]))
-            reported.append((rp, f0))
+            reported.append((rp, f0, ""))
             continue
         pred = lambda f, k=f0["kind"]: f["kind"] == k and relevant(f)
         small = shrink(text, workdir, pred, budget_s=90) if text else text
@@ -602,10 +646,26 @@ def finish(prop, tier, seed, spec, all_results, gen_errs, coq, workdir, t0):
         if kf:
             known_hits[kf["id"]] = kf
             continue
+        chosen = next((f for f in rel2 if is_direct(prop, f)), None)
+        note = ""
+        if chosen is None:
+            # only certificates / model agreement broke: search for a concrete failing read
+            ext = probe_extension(small)
+            ep = os.path.join(workdir, "probe.hist")
+            open(ep, "w").write(ext)
+            fails3, _, _, _ = run_one(ep, workdir, "probe")
+            hit = next((f for f in fails3 if relevant(f) and is_direct(prop, f)), None)
+            if hit is not None:
+                small = shrink(ext, workdir, lambda f, k=hit["kind"]: f["kind"] == k, budget_s=60)
+                chosen = hit
+            else:
+                chosen = rel2[0]
+                note = " no-failing-input-found"
         hid = hashlib.sha1(small.encode()).hexdigest()[:10]
         rp = os.path.join(EVID, "replays", f"{prop}-{hid}.hist")
-        open(rp, "w").write("# replay: bin/check %s --replay %s\n# failure: %s\n" % (prop, os.path.relpath(rp, ROOT), rel2[0]["line"]) + small)
-        reported.append((rp, rel2[0]))
+        open(rp, "w").write("# replay: bin/check %s --replay %s\n# failure: %s\n%s" % (prop, os.path.relpath(rp, ROOT), chosen["line"],
+                            ("# no concrete failing read was found by the probe search; what no longer checks: certificate/correspondence '%s' (%s)\n" % (chosen["kind"], chosen["detail"][:200])) if note else "") + small)
+        reported.append((rp, chosen, note))
     # proof side
     proof_broken = not coq["ok"]
     rc = 0
@@ -616,8 +676,8 @@ def finish(prop, tier, seed, spec, all_results, gen_errs, coq, workdir, t0):
         pass
     if reported:
         rc = 1
-        for rp, f in reported:
-            print(f"VIOLATION property={prop} replay={rp}")
+        for rp, f, note in reported:
+            print(f"VIOLATION property={prop} replay={rp}{note}")
             print("  " + f["line"][:300])
     if proof_broken:
         rc = 1
